@@ -565,46 +565,154 @@ def r10_8(ctx, rr):
         raise AnchorMissing("copy: expected the two middle-word loops of the misaligned multi-word branches, found %d" % n_loops)
 
 
-@rule("R10.9", props=["C10", "C05"], floor=1, title="apply_in_place_unchecked applies the function once per element also when there is nothing to store (bit width 0)")
+@rule("R10.9", props=["C10", "C05"], floor=2, title="apply_in_place_unchecked: every way out of the function other than for an empty vector has applied f in a loop (zero-width vectors included: f is called once per element even when nothing is stored)")
 def r10_9(ctx, rr):
-    """apply_in_place is documented as `for i in 0..len { set(i, f(get(i))) }`. An early `return` for bit width 0
-    skips the calls (and the validation of their results)."""
+    """apply_in_place(f) is documented as: call f once per element, in order. An early return taken for a reason
+    other than `len == 0` (bit width 0, a fast path) that does not run a loop calling f first silently skips the
+    calls -- invisible in the stored values when the width is 0, visible to every f with an effect."""
     F = ctx.F()
     b = F.one(r"^<bits::bit_field_vec::BitFieldVec<W, B> as traits::bit_field_slice::BitFieldSliceMut<W>>::apply_in_place_unchecked$")
-    fpar = b.params[1]["id"]
-    T = Termizer(F, b)
-    zero_ifs = []
-    for n in walk(b.body):
-        if n.get("k") == "If" and n["c"].get("k") == "Binary" and n["c"]["op"] == "==" and n["c"]["r"].get("k") == "Lit" and n["c"]["r"].get("v") == "0":
-            t = Walker(F, b).T.term(n["c"]["l"]) if False else None
-            # the left side is the bit width (a local bound to self.bit_width() / self.bit_width)
-            l = n["c"]["l"]
-            is_bw = False
-            if l.get("k") == "Path" and l.get("res") == "local":
-                ls = [x for x in walk(b.body) if x.get("k") == "LetStmt" and x["pat"].get("k") == "PBind" and x["pat"]["id"] == l["id"] and "init" in x]
-                is_bw = bool(ls) and "bit_width" in show(F, ls[0]["init"])
-            elif "bit_width" in show(F, l):
-                is_bw = True
-            if is_bw and any(x.get("k") == "Ret" for x in walk(n["th"])):
-                zero_ifs.append(n)
-    if not zero_ifs:
-        # no special case at all is fine too (the general path then has to cope with width 0): nothing to check
+    inl = ctx.memo("inliner", lambda: make_inliner(F))
+    slf = ("var", "self", b.params[0]["id"])
+    fpar = [p for p in b.params if p.get("k") == "PBind" and p.get("name") != "self"]
+    if not fpar:
+        raise AnchorMissing("apply_in_place_unchecked: no function parameter")
+    fid = fpar[0]["id"]
+    pm = {id(n): ps for n, ps in walk_with_parents(b.body)}
+
+    def calls_f(e):
+        return any(x.get("k") == "Call" and isinstance(x.get("f"), dict) and x["f"].get("k") == "Path" and x["f"].get("id") == fid for x in walk(e))
+
+    def loop_with_f_before(n):
+        # a loop calling f among the statements that precede n in one of the blocks enclosing it
+        anc = list(pm.get(id(n), ())) + [n]
+        for i, p in enumerate(anc[:-1]):
+            if p.get("k") == "Block":
+                for st in p.get("stmts", []):
+                    if st is anc[i + 1] or any(x is anc[i + 1] for x in walk(st)):
+                        break
+                    if any(is_loop_with_f(x) for x in walk(st)):
+                        return True
+        return False
+
+    def is_loop_with_f(x):
+        # a loop, or an internal iteration (`(0..len).for_each(|_| { f(..); })`), whose body calls f
+        if x.get("k") == "Loop":
+            return calls_f(x)
+        return x.get("k") == "MethodCall" and x["name"] in ("for_each", "try_for_each", "fold", "try_fold") and any(a.get("k") == "Closure" and calls_f(a) for a in x.get("args", []))
+    exits = []
+
+    def on_node(W, n, K):
+        if n.get("k") == "Ret" and not W.debug_depth:
+            empty = any(a[0] == "b" and a[2] is True and a[1][0] == "call" and a[1][1].endswith("is_empty") and a[1][2] == (slf,) for a in K.atoms) or \
+                K.entails(atom_le(("field", slf, "len"), ("int", 0)))
+            exits.append((n, empty or loop_with_f_before(n), K.show()))
+    Walker(F, b, on_node=on_node, inline=inl).run()
+    # the end of the body is an exit too: some loop calling f must exist at the top level of the function
+    rr.instances += 1
+    top = any(is_loop_with_f(x) for st in b.body.get("stmts", []) + ([b.body["expr"]] if "expr" in b.body else []) for x in walk(st))
+    rr.check(top, "apply_in_place_unchecked:applies-f", "apply_in_place_unchecked has no loop applying f", b.span)
+    if not exits:
+        raise AnchorMissing("apply_in_place_unchecked: expected early returns (empty vector, zero width, power-of-two path)")
+    for n, ok, known in exits:
         rr.instances += 1
-        rr.ob(True, key="apply_in_place_unchecked:zero-width", nontrivial=False)
-        return
-    for n in zero_ifs:
+        key = "apply_in_place_unchecked:exit-has-applied-f"
+        rr.ob(ok, key=key, sample={"exit": F.loc(n), "established": known[:4]})
+        if not ok:
+            rr.violate(key, "apply_in_place_unchecked returns at %s without the vector being empty and without a preceding loop that calls f (established: %s): f must be called once per element, also when the bit width is 0 and nothing is stored" % (F.loc(n), "; ".join(known[:5]) or "nothing"), F.loc(n))
+
+
+@rule("R14.11", props=["C14", "C10"], floor=3, title="BitFieldVec::copy: words of the destination are written whole only strictly between two words that the same branch updates under a mask (the first and the last word of the range keep their other bits)")
+def r14_11(ctx, rr):
+    """The destination range starts and ends inside words that also hold other elements (or the bits after the end of
+    the vector): those two words are updated as `&= !mask; |= bits`. Every branch of copy writes whole words -- one by
+    one in a loop, or with copy_from_slice -- only for the words strictly in between. A fast path that copies
+    `first..=last` whole overwrites what follows the range in the last word."""
+    F = ctx.F()
+    b = F.one(r"^<bits::bit_field_vec::BitFieldVec<W, B> as traits::bit_field_slice::BitFieldSliceMut<W>>::copy$")
+    pm = {id(n): ps for n, ps in walk_with_parents(b.body)}
+
+    def branch_of(n):
+        # the outermost if-branch block containing n (the arms of the case analysis on alignments)
+        for p in pm.get(id(n), ()):
+            if p.get("k") == "If":
+                anc = list(pm.get(id(n), ())) + [n]
+                i = [k for k, x in enumerate(anc) if x is p][0]
+                return id(anc[i + 1]) if anc[i + 1] is not p.get("c") else None
+        return None
+    masked, whole = {}, []
+    dest_terms = set()
+
+    def base_is_dest(W, e):
+        t = W.expand(W.T.term(e))
+        return mentions(t, lambda x: x[0] == "field" and x[2] == "bits" and x[1][0] == "var" and x[1][1] != "self")
+
+    def on_node(W, n, K):
+        if W.debug_depth:
+            return
+        k = n.get("k")
+        if k in ("AssignOp", "Assign") and n["l"].get("k") == "Index" and base_is_dest(W, n["l"]["e"]) and range_of(F, n["l"]["i"]) is None:
+            idx = W.expand(W.T.term(n["l"]["i"]))
+            if k == "AssignOp" and n["op"] in ("&=", "|=", "^="):
+                masked.setdefault(branch_of(n), set()).add(idx)
+            elif k == "Assign":
+                whole.append((n, branch_of(n), ("one", idx, W.T.term(n["l"]["i"])), K.copy(), W))
+        if k == "MethodCall" and n["name"] in ("copy_from_slice", "clone_from_slice", "fill", "copy_within") and n["recv"].get("k") == "Index" and base_is_dest(W, n["recv"]["e"]):
+            r = range_of(F, n["recv"]["i"])
+            if r is not None:
+                lo, hi, incl = r
+                whole.append((n, branch_of(n), ("range", W.expand(W.T.term(lo)) if lo is not None else None, W.expand(W.T.term(hi)) if hi is not None else None, incl), K.copy(), W))
+            else:
+                whole.append((n, branch_of(n), ("all",), K.copy(), W))
+    Walker(F, b, on_node=on_node).run()
+    if len(whole) < 3:
+        raise AnchorMissing("copy: expected the whole-word writes of the three multi-word branches, found %d" % len(whole))
+
+    def summands(t):
+        if t[0] == "op" and t[1] == "+":
+            return summands(t[2]) + summands(t[3])
+        return [t]
+
+    def strictly_above(idx, a, K):
+        # idx = a + r with r >= 1
+        s = summands(idx)
+        sa = summands(a)
+        rest = list(s)
+        for x in sa:
+            if x in rest:
+                rest.remove(x)
+            else:
+                return False
+        if not rest:
+            return False
+        if any(x[0] == "int" and x[1] >= 1 for x in rest):
+            return True
+        return len(rest) == 1 and K.entails(atom_le(("int", 1), rest[0]))
+
+    def strictly_below(idx, a, bb, K):
+        # idx = a + r with r < bb - a, or idx < bb known
+        if K.entails(atom_le(idx, bb, True)):
+            return True
+        s = summands(idx)
+        rest = list(s)
+        for x in summands(a):
+            if x in rest:
+                rest.remove(x)
+            else:
+                return False
+        if len(rest) != 1:
+            return False
+        return K.entails(atom_le(rest[0], mk_op("-", bb, a), True))
+    for n, br, what, K, W in whole:
         rr.instances += 1
-        calls_f = [x for x in walk(n["th"]) if x.get("k") == "Call" and x["f"].get("k") == "Path" and x["f"].get("id") == fpar]
-        in_loop = False
-        pm = {id(x): ps for x, ps in walk_with_parents(n["th"])}
-        for c in calls_f:
-            anc = pm.get(id(c), ())
-            if any(p.get("k") == "Loop" for p in anc):
-                in_loop = True
-            # ... or inside the closure of an internal iteration over the elements (`(0..len).for_each(|_| f(..))`)
-            for i_, p in enumerate(anc):
-                if p.get("k") == "MethodCall" and p.get("name") in ("for_each", "try_for_each", "map") and any(q.get("k") == "Closure" and any(x is c for x in walk(q)) for q in p.get("args", [])):
-                    in_loop = True
-        rr.ob(in_loop, key="apply_in_place_unchecked:zero-width-still-applies-f")
-        if not in_loop:
-            rr.violate("apply_in_place_unchecked:zero-width-still-applies-f", "apply_in_place_unchecked returns at once when the bit width is 0, without applying the function to the len elements (all 0): the documented element-by-element definition calls it len times and validates each result", F.loc(n))
+        M = sorted(masked.get(br, ()), key=repr)
+        ok = False
+        if what[0] == "one":
+            ok = any(strictly_above(what[1], a, K) and strictly_below(what[1], a, bb, K) for a in M for bb in M if a != bb)
+        elif what[0] == "range":
+            _, lo, hi, incl = what
+            ok = lo is not None and hi is not None and not incl and any(strictly_above(lo, a, K) and (hi == bb or K.entails(atom_le(hi, bb))) for a in M for bb in M if a != bb)
+        key = "BitFieldVec::copy:whole-words-strictly-inside"
+        rr.ob(ok, key=key, sample={"write": show(F, n)[:80], "masked words of the branch": [tshow(x)[:40] for x in M]})
+        if not ok:
+            rr.violate(key, "copy writes `%s` whole, and it is not established that these words lie strictly between two words the same branch updates under a mask (masked words of the branch: %s): the first and the last word of the destination range also hold bits outside the range (following elements, or the bits after the end of the vector)" % (show(F, n)[:80], [tshow(x)[:40] for x in M] or "none"), F.loc(n))
